@@ -286,8 +286,17 @@ class PDFContentParser(PSStackParser[Union[PSKeyword, PDFStream]]):
         self.seek(pos)
         i = 0
         data = b""
+        # the marker and the white-space character that delimits it
+        ntail = len(target) + 1
         while i <= len(target):
-            self.fillbuf()
+            try:
+                self.fillbuf()
+            except PSEOF:
+                if i != len(target):
+                    raise
+                # the end of the content delimits the marker like white space
+                ntail = len(target)
+                break
             if i:
                 ci = self.buf[self.charpos]
                 c = bytes((ci,))
@@ -300,6 +309,9 @@ class PDFContentParser(PSStackParser[Union[PSKeyword, PDFStream]]):
                     and c == (bytes((target[i],)))
                 ):
                     i += 1
+                elif ci == target[0]:
+                    # the mismatching byte may itself begin the marker
+                    i = 1
                 else:
                     i = 0
             else:
@@ -311,8 +323,9 @@ class PDFContentParser(PSStackParser[Union[PSKeyword, PDFStream]]):
                 except ValueError:
                     data += self.buf[self.charpos :]
                     self.charpos = len(self.buf)
-        data = data[: -(len(target) + 1)]  # strip the last part
-        data = re.sub(rb"(\x0d\x0a|[\x0d\x0a])$", b"", data)
+        data = data[:-ntail]  # strip the last part
+        # \Z, not $: $ also matches before a final newline and would strip two
+        data = re.sub(rb"(\x0d\x0a|[\x0d\x0a])\Z", b"", data)
         return (pos, data)
 
     def flush(self) -> None:
